@@ -185,6 +185,10 @@ def check(rep, pid, tier, seed):
     dprobs = dtype_forms(m)
     for p in dprobs:
         rep.violation("C19 forms: " + p, dict(kind="dtype"), key=p[:40])
+    aprobs = alias_purity(m)
+    for p in aprobs:
+        rep.violation("C19 purity: " + p, dict(kind="alias"), key=p[:40])
+    rep.extra["constructor_argument_purity"] = dict(classes="Parameters, EstimationModel, Position, NedVelocity, Integrator; resample_state times", disagreements=len(aprobs))
     rep.extra["integer_typed_form_cases"] = dict(cases=29, spellings="Python int / int list, int64 array, int32 array", disagreements=len(dprobs))
     rep.extra["callables_exercised"] = len(callables_hit)
     rep.extra["callables_in_table"] = len(R.TABLE)
@@ -290,7 +294,77 @@ def dtype_forms(m):
     return probs
 
 
+def alias_purity(m):
+    """Objects that KEEP what they are constructed from (Parameters, EstimationModel, the measurement classes, Integrator) must not
+    write through to the caller's arrays when their methods run later (seeded change C19_10: Parameters.apply drifted the caller's bias
+    array), and array arguments that a function reorders internally must come back untouched (C19_9: resample_state sorted the
+    caller's `times`).  Returns a list of problem strings."""
+    pd = m["pd"]
+    T, IS, MS, SD, EMod, sim = m["transform"], m["inertial_sensor"], m["measurements"], m["strapdown"], m["error_model"], m["sim"]
+    from . import exc as _exc
+    probs = []
+
+    def unchanged(name, snaps):
+        for label, obj, snap in snaps:
+            same = obj.equals(snap) if hasattr(obj, "equals") else (np.array_equal(obj, snap) and obj.dtype == snap.dtype)
+            if not same:
+                probs.append("%s modified the caller's `%s`" % (name, label))
+
+    def snap(**kw):
+        return [(k, v, v.copy()) for k, v in kw.items()]
+    try:
+        # Parameters: every array argument, several apply() calls of both sensor types
+        tr, bias, noise, walk = np.eye(3) + 1e-3 * np.arange(9).reshape(3, 3), np.array([1e-4, -2e-4, 3e-4]), np.array([1e-3, 0.0, 2e-3]), np.array([1e-5, 1e-5, 0.0])
+        sn = snap(transform=tr, bias=bias, noise=noise, bias_walk=walk)
+        par = IS.Parameters(tr, bias, noise, walk, rng=3)
+        readings = pd.DataFrame(np.arange(30, dtype=float).reshape(10, 3) / 7, index=np.cumsum([0.5, 0.25] * 5), columns=["a", "b", "c"])
+        rsnap = readings.copy()
+        par.apply(readings, "rate"); par.apply(readings, "increment"); par.apply(readings, "rate")
+        unchanged("Parameters.apply", sn + [("readings", readings, rsnap)])
+        # EstimationModel: parameters given as arrays, then the whole estimate life cycle
+        bsd, nz, bw, sm = np.array([1e-3, 2e-3, 0.0]), np.array([1e-4, -1.0, 1e-4]), np.array([1e-6, 0.0, 0.0]), np.diag([1e-3, 0.0, 2e-3])
+        sn = snap(bias_sd=bsd, noise=nz, bias_walk=bw, scale_misal_sd=sm)
+        em = IS.EstimationModel(bsd, nz, bw, sm)
+        x = np.arange(1, em.n_states + 1) / 64.0; r = np.array([1.0, 2.0, 3.0]); dtv = np.array([0.5, 0.25]); inc = pd.DataFrame([[1.0, 2.0, 3.0], [0.5, -1.0, 2.0]])
+        sn += snap(x=x, readings=r, dt=dtv, increments=inc)
+        em.update_estimates(x); em.output_matrix(r); em.correct_increments(dtv, inc); em.get_estimates(); em.reset_estimates(); em.update_estimates(x)
+        unchanged("EstimationModel methods", sn)
+        # measurement classes: the data table and the lever arm
+        data = pd.DataFrame([[55.0, 37.0, 120.0], [55.0001, 37.0001, 121.0]], index=[1.0, 2.0], columns=["lat", "lon", "alt"]); lever = np.array([0.5, -0.3, 0.2])
+        pva = pd.Series([55.0, 37.0, 120.5, 1.0, 2.0, 0.1, 3.0, -2.0, 40.0, 0.01, 0.02, 0.03],
+                        index=["lat", "lon", "alt", "VN", "VE", "VD", "roll", "pitch", "heading", "rate_x", "rate_y", "rate_z"], name=1.0)
+        sn = snap(data=data, imu_to_antenna_b=lever, pva=pva)
+        for alt in (True, False):
+            e = EMod.InsErrorModel(alt)
+            MS.Position(data, 2.0, lever).compute_matrices(1.0, pva, e)
+            vdat = data.rename(columns={"lat": "VN", "lon": "VE", "alt": "VD"})
+            MS.NedVelocity(vdat, 0.1, lever).compute_matrices(2.0, pva, e)
+        unchanged("Position / NedVelocity compute_matrices", sn)
+        # Integrator: the initial state and the increments
+        p0 = pva[["lat", "lon", "alt", "VN", "VE", "VD", "roll", "pitch", "heading"]].copy(); p0.name = 0.0
+        incs = pd.DataFrame([[0.5, 1e-3, 2e-3, -1e-3, 0.01, 0.02, -4.9]] * 3, index=[0.5, 1.0, 1.5], columns=["dt", "theta_x", "theta_y", "theta_z", "dv_x", "dv_y", "dv_z"])
+        sn = snap(pva=p0, increments=incs)
+        for alt in (True, False):
+            it = SD.Integrator(p0, alt); it.predict(incs.iloc[0]); it.integrate(incs.iloc[:2]); it.set_pva(it.get_pva()); it.integrate(incs.iloc[2:])
+        unchanged("Integrator methods", sn)
+        # arrays a function reorders internally
+        tab = pd.DataFrame({"VN": [0.0, 1.0, 2.0, 3.0], "roll": [0.0, 1.0, 2.0, 3.0], "pitch": [0.0] * 4, "heading": [10.0, 20.0, 30.0, 40.0]}, index=[0.0, 1.0, 2.0, 3.0])
+        for targ in (np.array([2.5, 0.5, 1.5, 0.5, 9.0]), pd.Index([2.5, 0.5, 1.5]), pd.Series([2.5, 0.5, 1.5])):
+            ts = targ.copy()
+            T.resample_state(tab, targ)
+            unchanged("resample_state", [("times (%s)" % type(targ).__name__, targ, ts), ("state", tab, tab.copy())])
+    except Exception as e:
+        if not _exc.entered_pyins(e):
+            raise
+        probs.append("an object kept from writable arguments raised while its methods ran: %s" % _exc.describe(e))
+    return probs
+
+
 def replay(rep, pid, case):
+    if case.get("kind") == "alias":
+        for p in alias_purity(filt._imports()):
+            rep.violation("C19 " + p, case)
+        return
     if case.get("kind") == "dtype":
         for p in dtype_forms(filt._imports()):
             rep.violation("C19 " + p, case)
